@@ -14,10 +14,10 @@ What is proved (any commutative ring `K`; time derivatives by first-order jets `
 * `momentum_rate_body`         `d/dt (Phi(r) M V) = Phi(r) (M A + b)` (momentum about the fixed Ground origin)
 * `reactions_do_no_work`       on any tree: `Σ_k ~(R_k − Σ_c Phi_c R_c) V_k = Σ_k (~H_k R_k)·u_k`  because `V_k − ~Phi V_parent = H_k u_k`
 * `system_power`               if the body equations of motion hold, `Σ ~V_k (M_k A_k + b_k) = Σ ~V_k F_ext,k + Σ τ_k·u_k`
-* `energy_rate`                hence `d/dt Σ ~V M V = 2 (Σ ~V_k F_ext,k + Σ τ_k u_k)`; `energy_conserved_of_gradient`
-* `momentum_rate`              `Σ_k Phi(r_k)(M_k A_k + b_k) = Σ_k Phi(r_k) F_ext,k + Σ_base Phi R_base`; `momentum_conserved_free_base`
-* `euler_energy_growth`        explicit Euler multiplies the oscillator energy by exactly `1 + h²ω²` per step (why drift is
-                               governed by the error controller, not by the method)
+* `energy_rate`                hence `d/dt Σ ~V M V = 2 (Σ ~V_k F_ext,k + Σ τ_k u_k)`  (power = −d/dt PE is C12's statement, not restated here)
+* `momentum_rate`              `Σ_k Phi(r_k)(M_k A_k + b_k) = Σ_k Phi(r_k) F_ext,k + Σ_base Phi R_base`  (any applied forces)
+* `momentum_conserved_internal_forces`   zero net applied wrench + zero base reactions ⇒ total inertial force about Ground is 0
+* `momG_is_central_form`       `Phi(r) M V` is the central-momentum form the C++ accumulates
 
 Trajectory-level drift bounds are *not* theorems here (C11 is partial): they are measured by harness/C11.cpp.
 -/
@@ -92,15 +92,14 @@ theorem reactions_subtree (Rf : Nat → SV K) (u : List K) : ∀ (t : Tr K) (Vp 
     netReactionPower Rf u t Vp = SV.dot (Rf t.bd.id) (phiT t.bd.l Vp) + jointPower Rf u t
   | .node b cs, Vp => by
       have ih := reactions_kids Rf u cs (SV.add (phiT b.l Vp) (mulH b.H (u.drop b.u0)))
-      simp only [netReactionPower, jointPower, Tr.bd, ih.2, ← dot_mulH, SV.dot_add_right]
+      simp only [netReactionPower, jointPower, Tr.bd, ih, ← dot_mulH, SV.dot_add_right]
       ring
 theorem reactions_kids (Rf : Nat → SV K) (u : List K) : ∀ (cs : List (Tr K)) (V : SV K),
-    True ∧ (netReactionPowers Rf u cs V).2 = (netReactionPowers Rf u cs V).1 + jointPowers Rf u cs
+    (netReactionPowers Rf u cs V).2 = (netReactionPowers Rf u cs V).1 + jointPowers Rf u cs
   | [], V => by simp [netReactionPowers, jointPowers]
   | c :: cs, V => by
       have h1 := reactions_subtree Rf u c V
-      have h2 := (reactions_kids Rf u cs V).2
-      refine ⟨trivial, ?_⟩
+      have h2 := reactions_kids Rf u cs V
       simp only [netReactionPowers, jointPowers, h1, h2, dot_phi]
       ring
 end
@@ -115,7 +114,7 @@ theorem reactions_do_no_work (Rf : Nat → SV K) (u : List K) (ts : List (Tr K))
     induction cs with
     | nil => simp [netReactionPowers]
     | cons c cs ih => simp [netReactionPowers, ih, SV.dot_zero_right]
-  rw [(reactions_kids Rf u ts SV.zero).2, z ts, zero_add]
+  rw [reactions_kids Rf u ts SV.zero, z ts, zero_add]
 
 /-- `Σ_{c} Phi_c R_c`: the reactions the children exert back on their common parent (sign: subtracted) -/
 def childReactions (Rf : Nat → SV K) : List (Tr K) → SV K
@@ -192,13 +191,6 @@ theorem energy_rate : ∀ (bs : List (RB K × SV K × SV K)), (ke2sumJet bs).ep 
       simp only [ke2sumJet, inertialPower, Jet.add_ep, rigid_body_power, energy_rate r]
       ring
 
-/-- if the applied power is minus the rate of a potential (C12), total energy is stationary -/
-theorem energy_conserved_of_gradient (ke2dot power pedot : K) (h1 : ke2dot = 2 * power) (h2 : power = -pedot) :
-    ke2dot + 2 * pedot = 0 := by
-  rw [h1, h2]; ring
-
-example : (4 : Int) + 2 * (-2) = 0 := by decide
-
 /-! ### momentum -/
 theorem sv_swap (a b c : SV K) : SV.add a (SV.add b c) = SV.add (SV.add a c) b := by
   apply SV.ext' <;> apply V3.ext' <;> simp only [SV.add, V3.add] <;> ring
@@ -240,30 +232,46 @@ theorem mulJTs_zeroF : ∀ (cs : List (Tr K)), (mulJTs (fun _ => (SV.zero : SV K
   | c :: cs => by simp [mulJTs, mulJT_zeroF c, mulJTs_zeroF cs, phi_zero, SV.add_zero]
 end
 
-/-- **Free-floating system, internal forces only**: no applied body forces (internal force elements enter as
-equal-and-opposite pairs, C13, and cancel in the sum; here: none) and vanishing base-joint reactions (a Free base
-mobilizer carries no mobility force, so `~H R = 0` with `H` invertible gives `R = 0`) ⇒ the total inertial force
-about the Ground origin is zero, i.e. total linear and angular momentum are constant. -/
-theorem momentum_conserved_free_base (Fin Rf : Nat → SV K) (ts : List (Tr K))
-    (h : ∀ c ∈ ts, EOM Fin (fun _ => SV.zero) Rf c) (hbase : ∀ c ∈ ts, Rf c.bd.id = SV.zero) :
+/-- **Free-floating system, internal forces only.**  Hypotheses: the applied forces have zero net wrench about the Ground
+origin, `Σ_k Phi(r_k) Fext_k = 0` (internal force elements act as equal-and-opposite pairs along a common line: C13), and the
+base-joint reactions vanish (a Free base mobilizer carries no mobility force: `~H R = 0` with `H` invertible gives `R = 0`).
+Conclusion: the total inertial force about the Ground origin is zero, i.e. (by `momentum_rate_body`) total linear and angular
+momentum are constant.  The applied forces themselves are arbitrary. -/
+theorem momentum_conserved_internal_forces (Fin Fext Rf : Nat → SV K) (ts : List (Tr K))
+    (h : ∀ c ∈ ts, EOM Fin Fext Rf c) (hnet : (mulJTs Fext ts).1 = SV.zero)
+    (hbase : ∀ c ∈ ts, Rf c.bd.id = SV.zero) :
     (mulJTs Fin ts).1 = SV.zero := by
-  rw [momentum_rate Fin _ Rf ts h, mulJTs_zeroF, SV.zero_add]
+  rw [momentum_rate Fin Fext Rf ts h, hnet, SV.zero_add]
+  clear hnet h
   induction ts with
   | nil => rfl
   | cons c cs ih =>
     simp only [childReactions, hbase c (by simp), phi_zero, SV.zero_add]
-    exact ih (fun c' hc' => h c' (by simp [hc'])) (fun c' hc' => hbase c' (by simp [hc']))
+    exact ih (fun c' hc' => hbase c' (by simp [hc']))
 
+/-- non-vacuity: one free body, an applied force field with zero net wrench (here: none on the only body's own equation beyond
+its inertial force), zero base reaction -/
 example : EOM (fun _ => (SV.zero : SV Int)) (fun _ => SV.zero) (fun _ => SV.zero)
     (Tr.node ⟨1, 0, ⟨1, 0, 2⟩, [⟨⟨0, 0, 1⟩, ⟨0, 3, 0⟩⟩], []⟩ []) :=
   EOM.mk _ _ (by rfl) (by simp)
 
-/-! ### discrete layer (one exact fact) -/
-/-- explicit Euler on the harmonic oscillator multiplies the energy by exactly `1 + h² ω²` every step: a fixed-step
-low-order method does not conserve energy; what bounds the drift along a trajectory is the error controller
-(C20), which is why the trajectory-level clause of C11 is measured, not proved. -/
-theorem euler_energy_growth (w2 h : K) (s : K × K) :
-    hoEnergy w2 (hoEuler w2 h s) = (1 + h * h * w2) * hoEnergy w2 s := by
-  simp only [hoEnergy, hoEuler, hoF]; ring
+/-- two bodies in a chain with equal-and-opposite applied forces at the same Ground point (net wrench zero) -/
+example : (mulJTs (fun i => if i = 1 then (⟨⟨0, 0, 0⟩, ⟨0, 0, 1⟩⟩ : SV Int) else ⟨⟨0, -1, 0⟩, ⟨0, 0, -1⟩⟩)
+    [Tr.node ⟨1, 0, ⟨0, 0, 0⟩, [], []⟩ [Tr.node ⟨2, 0, ⟨1, 0, 0⟩, [], []⟩ []]]).1 = SV.zero := by rfl
+
+/-- the momentum the code accumulates (`calcSystemMomentumAboutGroundOrigin`: central angular momentum `I_c ω` plus
+`r_c × m v_c`, and `m v_c`) is `momG`: with `I_c = I − m((p·p) 1 − p ~p)`, `r_c = r + p`, `v_c = v + ω × p` -/
+def centralInertia (b : RB K) : Sym3 K :=
+  let p := b.p
+  ⟨b.I.xx - b.m * (p.y * p.y + p.z * p.z), b.I.yy - b.m * (p.x * p.x + p.z * p.z), b.I.zz - b.m * (p.x * p.x + p.y * p.y),
+   b.I.xy + b.m * (p.x * p.y), b.I.xz + b.m * (p.x * p.z), b.I.yz + b.m * (p.y * p.z)⟩
+
+theorem momG_is_central_form (b : RB K) (r : V3 K) (V : SV K) :
+    momG b r V =
+      ⟨V3.add ((centralInertia b).mulV V.w)
+              (V3.cross (V3.add r b.p) (V3.smul b.m (V3.add V.v (V3.cross V.w b.p)))),
+       V3.smul b.m (V3.add V.v (V3.cross V.w b.p))⟩ := by
+  apply SV.ext' <;> apply V3.ext' <;>
+    simp only [momG, phi, mulM, centralInertia, Sym3.mulV, V3.add, V3.sub, V3.smul, V3.cross] <;> ring
 
 end C11
